@@ -7,7 +7,8 @@ Template language (lines starting with //@@ at top level, //@ inside an fn/type 
   //@@ fn <src file> | <scope header or -> | <fn name> [props=C01,C10] [sigcheck=off]
     //@ header              (verus attributes + signature with named return + requires/ensures)
     //@ drop                (one regex per line: whole statements starting with a match are removed; R1)
-    //@ rewrite [n=K]       (lines `FROM ==> TO`, literal; `[n=K] FROM ==> TO` demands exactly K matches, default any; R3-R6)
+    //@ rewrite [n=K]       (lines `FROM ==> TO`, literal; `[n=K] FROM ==> TO` demands exactly K matches, default any;
+                            `[n=K?TOKEN]`: K matches, or 0 if the literal TOKEN no longer occurs in the body; R3-R6)
     //@ rewrite-re [n=K]    (same with python regex FROM)
     //@ loop K              (invariant / decreases text for the K-th loop of the body)
     //@ loop-start K        (text inserted as first statement(s) of the K-th loop body)
@@ -439,10 +440,12 @@ def apply_fn_block(blk, unit_state):
             frm = frm.strip()
             to = to.strip()
             want = o.get('n', '*')
-            mline = re.match(r'^\[n=(\d+|\*|\+)\]\s*(.*)$', frm)
+            mline = re.match(r'^\[n=(\d+|\*|\+)(?:\?([^\]]+))?\]\s*(.*)$', frm)
+            absent_token = None
             if mline:
                 want = mline.group(1)
-                frm = mline.group(2)
+                absent_token = mline.group(2)
+                frm = mline.group(3)
             cnt = 0
             for l in lines:
                 if l.kind not in ('code', 'rewritten'):
@@ -462,7 +465,11 @@ def apply_fn_block(blk, unit_state):
                 if cnt == 0:
                     raise ExtractError('%s: rewrite matched nothing: %s' % (where(), frm))
             elif cnt != int(want):
-                raise ExtractError('%s: rewrite `%s` matched %d times, expected %s' % (where(), frm, cnt, want))
+                # `[n=K?TOKEN]`: K matches, or none at all provided the literal TOKEN no longer occurs in the body (the
+                # annotated call is really gone, e.g. removed by an edit: then the clauses that depended on it must fail)
+                body_now = '\n'.join(l.text.split('//')[0] for l in lines if l.kind in ('code', 'rewritten'))
+                if not (cnt == 0 and absent_token and absent_token not in body_now):
+                    raise ExtractError('%s: rewrite `%s` matched %d times, expected %s' % (where(), frm, cnt, want))
             rules.append({'rule': 'rewrite-re' if regex else 'rewrite', 'from': frm, 'to': to, 'count': cnt})
 
     for sarg, slines in sec_by.get('rewrite', []):
